@@ -1,6 +1,7 @@
 package main
 
 import (
+	"sort"
 	"fmt"
 	"go/constant"
 	"go/token"
@@ -19,10 +20,11 @@ type cenv struct {
 	imports map[string]string
 	fr      *Frame
 	letBusy map[string]bool
+	freshWM string // if set: fresh(x) means "allocated after this watermark" (callee postconditions at a call site)
 }
 
 func (env *cenv) child() *cenv {
-	n := &cenv{vars: map[string]Val{}, lets: env.lets, old: env.old, pkgPath: env.pkgPath, imports: env.imports, fr: env.fr}
+	n := &cenv{vars: map[string]Val{}, lets: env.lets, old: env.old, pkgPath: env.pkgPath, imports: env.imports, fr: env.fr, freshWM: env.freshWM}
 	for k, v := range env.vars {
 		n.vars[k] = v
 	}
@@ -928,6 +930,9 @@ func (e *Engine) evalCall(st *State, env *cenv, x *CExpr) (Val, error) {
 		if v.K == KIface { // a boxed pointer: the object it points to
 			t = "(iaddr " + v.T + ")"
 		}
+		if env.freshWM != "" {
+			return Val{K: KBool, T: "(< (root " + t + ") " + env.freshWM + ")"}, nil
+		}
 		return Val{K: KBool, T: "(< (root " + t + ") 0)"}, nil
 	case "visited": // visited(m, k): the range loop over map m has already produced key k
 		v, err := e.evalC(st, env, args[0])
@@ -1579,6 +1584,36 @@ type assignsCtx struct {
 	all     bool
 	byHeap  map[string][]desig
 	enabled bool
+	// loop-level context (a loop's "modifies" clause, checked while execution is inside the loop body):
+	wm   string // objects with a root below wm were allocated after the cut (default: "0", allocated during the call)
+	loop int    // ordinal of the loop (0: the function's assigns clause)
+}
+
+// activeACs: the frame conditions in force at this point - the function's assigns clause and the modifies clause of
+// every cut loop whose body execution is currently in (also while an inlined callee runs inside that body).
+func (st *State) activeACs() []*assignsCtx {
+	var out []*assignsCtx
+	if ac := st.assignsEnv; ac != nil && ac.enabled && !ac.all {
+		out = append(out, ac)
+	}
+	for _, f := range st.frames {
+		for h, lac := range f.loopAC {
+			if h.blocks[f.block] && !lac.all {
+				out = append(out, lac)
+			}
+		}
+	}
+	if len(out) > 1 {
+		sort.SliceStable(out, func(i, j int) bool { return out[i].loop < out[j].loop })
+	}
+	return out
+}
+
+func (e *Engine) acName(ac *assignsCtx, pos string) string {
+	if ac.loop > 0 {
+		return fmt.Sprintf("%s.loop%d.modifies@%s", e.curFunc, ac.loop, pos)
+	}
+	return fmt.Sprintf("%s.assigns@%s", e.curFunc, pos)
 }
 
 func (e *Engine) allowedPred(ac *assignsCtx, heap, a string) string {
@@ -1604,73 +1639,108 @@ func (e *Engine) allowedPred(ac *assignsCtx, heap, a string) string {
 		}
 	}
 	if strings.HasPrefix(e.heapSortOf(heap), "(Array Addr ") {
-		cs = append(cs, "(< (root "+a+") 0)") // allocated during this call
+		wm := "0" // allocated during this call
+		if ac.wm != "" {
+			wm = ac.wm // allocated since the loop was cut
+		}
+		cs = append(cs, "(< (root "+a+") "+wm+")")
 	}
 	return sOr(cs...)
 }
 
 func (e *Engine) checkAssigns(st *State, a Val, t types.Type, pos token.Pos) {
-	ac := st.assignsEnv
-	if ac == nil || !ac.enabled || ac.all {
-		return
+	for _, ac := range st.activeACs() {
+		if a.Root != "" && ac.loop == 0 { // fresh object of this activation
+			continue
+		}
+		var cs []string
+		leafPaths(a.T, t, func(addr string, k Kind, lt types.Type) {
+			cs = append(cs, e.allowedPred(ac, heapFor(k, lt), addr))
+		})
+		st.addCheck(&Check{Name: e.acName(ac, shortPos(posStr(e, pos))), Kind: "assigns", Goal: sAnd(cs...), Pos: posStr(e, pos), Func: e.curFunc, Bounded: st.boundedNow()})
 	}
-	if a.Root != "" { // fresh object of this activation
-		return
-	}
-	var cs []string
-	leafPaths(a.T, t, func(addr string, k Kind, lt types.Type) {
-		cs = append(cs, e.allowedPred(ac, heapFor(k, lt), addr))
-	})
-	st.addCheck(&Check{Name: fmt.Sprintf("%s.assigns@%s", e.curFunc, shortPos(posStr(e, pos))), Kind: "assigns", Goal: sAnd(cs...), Pos: posStr(e, pos), Func: e.curFunc, Bounded: st.boundedNow()})
 }
 
 func (e *Engine) checkAssignsRange(st *State, dst Val, pos token.Pos) {
-	ac := st.assignsEnv
-	if ac == nil || !ac.enabled || ac.all || dst.Root != "" {
-		return
+	for _, ac := range st.activeACs() {
+		if dst.Root != "" && ac.loop == 0 {
+			continue
+		}
+		q := st.declare("fa", "Int")
+		goal := sImp(sAnd(sLe("0", q), sLt(q, dst.Len)), e.allowedPred(ac, "Hy", elemAt(dst.Base, dst.Off, q)))
+		st.addCheck(&Check{Name: e.acName(ac, shortPos(posStr(e, pos))), Kind: "assigns", Goal: goal, Pos: posStr(e, pos), Func: e.curFunc})
 	}
-	q := st.declare("fa", "Int")
-	goal := sImp(sAnd(sLe("0", q), sLt(q, dst.Len)), e.allowedPred(ac, "Hy", elemAt(dst.Base, dst.Off, q)))
-	st.addCheck(&Check{Name: fmt.Sprintf("%s.assigns@%s", e.curFunc, shortPos(posStr(e, pos))), Kind: "assigns", Goal: goal, Pos: posStr(e, pos), Func: e.curFunc})
 }
 
 func (e *Engine) checkAssignsMap(st *State, m Val, pos token.Pos) {
-	ac := st.assignsEnv
-	if ac == nil || !ac.enabled || ac.all || m.Root != "" {
-		return
+	for _, ac := range st.activeACs() {
+		if m.Root != "" && ac.loop == 0 {
+			continue
+		}
+		goal := sOr(e.allowedPred(ac, "ML", m.T))
+		st.addCheck(&Check{Name: e.acName(ac, shortPos(posStr(e, pos))), Kind: "assigns", Goal: goal, Pos: posStr(e, pos), Func: e.curFunc})
 	}
-	goal := sOr(e.allowedPred(ac, "ML", m.T))
-	st.addCheck(&Check{Name: fmt.Sprintf("%s.assigns@%s", e.curFunc, shortPos(posStr(e, pos))), Kind: "assigns", Goal: goal, Pos: posStr(e, pos), Func: e.curFunc})
 }
 
 func (e *Engine) checkCalleeAssigns(st *State, env *cenv, texts []string, pos token.Pos) {
-	ac := st.assignsEnv
-	if ac == nil || !ac.enabled || ac.all {
+	acs := st.activeACs()
+	if len(acs) == 0 {
 		return
 	}
 	ds, all, err := e.evalDesignators(st, env, texts)
 	if err != nil {
 		return
 	}
-	if all {
-		st.addCheck(&Check{Name: fmt.Sprintf("%s.assigns@%s", e.curFunc, shortPos(posStr(e, pos))), Kind: "assigns", Goal: "false", Pos: posStr(e, pos), Func: e.curFunc})
-		return
-	}
-	var cs []string
-	for _, d := range ds {
-		switch {
-		case d.heap == "$memory":
-			cs = append(cs, e.allowedWhole(ac, "$memory"))
-		case d.whole:
-			cs = append(cs, e.allowedWhole(ac, d.heap))
-		case d.pred != nil:
-			q := st.declare("fa", keySortOf(e.heapSortOf(d.heap)))
-			cs = append(cs, sImp(d.pred(q), e.allowedPred(ac, d.heap, q)))
-		default:
-			cs = append(cs, e.allowedPred(ac, d.heap, d.single))
+	for _, ac := range acs {
+		if all {
+			st.addCheck(&Check{Name: e.acName(ac, shortPos(posStr(e, pos))), Kind: "assigns", Goal: "false", Pos: posStr(e, pos), Func: e.curFunc})
+			continue
 		}
+		var cs []string
+		for _, d := range ds {
+			switch {
+			case d.heap == "$memory":
+				cs = append(cs, e.allowedWhole(ac, "$memory"))
+			case d.whole:
+				cs = append(cs, e.allowedWhole(ac, d.heap))
+			case d.pred != nil:
+				q := st.declare("fa", keySortOf(e.heapSortOf(d.heap)))
+				cs = append(cs, sImp(d.pred(q), e.allowedPred(ac, d.heap, q)))
+			default:
+				cs = append(cs, e.allowedPred(ac, d.heap, d.single))
+			}
+		}
+		st.addCheck(&Check{Name: e.acName(ac, shortPos(posStr(e, pos))), Kind: "assigns", Goal: sAnd(cs...), Pos: posStr(e, pos), Func: e.curFunc, Bounded: st.boundedNow()})
 	}
-	st.addCheck(&Check{Name: fmt.Sprintf("%s.assigns@%s", e.curFunc, shortPos(posStr(e, pos))), Kind: "assigns", Goal: sAnd(cs...), Pos: posStr(e, pos), Func: e.curFunc, Bounded: st.boundedNow()})
+}
+
+// checkHavocFrame: a call without a contract is given a frame by the engine (shallow: the objects its arguments refer
+// to; or everything). That frame must fit the frame conditions in force, like the assigns clause of a contract would.
+func (e *Engine) checkHavocFrame(st *State, key string, everything bool, preds []havocPred, pos token.Pos) {
+	for _, ac := range st.activeACs() {
+		name := e.acName(ac, shortPos(posStr(e, pos))) + "[" + lastSeg(key) + "]"
+		if everything {
+			st.addCheck(&Check{Name: name, Kind: "assigns", Goal: e.allowedWhole(ac, "$memory"), Pos: posStr(e, pos), Func: e.curFunc, Clause: "call without a contract: may change all program memory"})
+			continue
+		}
+		var cs []string
+		for _, p := range preds {
+			if !strings.HasPrefix(e.heapSortOf(p.heap), "(Array Addr ") {
+				continue
+			}
+			q := st.declare("fa", "Addr")
+			cs = append(cs, sImp(p.f(q), e.allowedPred(ac, p.heap, q)))
+		}
+		if len(cs) == 0 {
+			continue
+		}
+		st.addCheck(&Check{Name: name, Kind: "assigns", Goal: sAnd(cs...), Pos: posStr(e, pos), Func: e.curFunc, Clause: "call without a contract: may change the objects its arguments refer to"})
+	}
+}
+
+type havocPred struct {
+	heap string
+	f    func(a string) string
 }
 
 func (e *Engine) allowedWhole(ac *assignsCtx, heap string) string {
